@@ -174,7 +174,7 @@ def rule_span(ctx):
     cp = ctx.fn("combinatorics:construct_permutation")
     Fc = Facts(cp)
     its = Fc.iters()
-    ctx.check("enumerate(inversion_sequence)" in its and "[False for i in range(orig_n)]" in "".join(Fc.assigns("used")), R, cp, "construct",
+    ctx.check("enumerate(inversion_sequence)" in its and "[False for _b0 in range(orig_n)]" in "".join(Fc.assigns("used")), R, cp, "construct",
               "one output per digit; a used-flag per element of the ground set", "construct_permutation changed: %s" % its)
     # the skip search: skip counts only unused elements, lands on an unused element, marks it used
     src = [ast.unparse(s) for s in statements(cp.node)]
@@ -466,7 +466,7 @@ def rule_siblings(ctx):
     ctx.check(Fn.tests()[:2] == ["(n < m)", "(m == n)"] and Fn.returns()[:2] == ["0", "1"] and [ast.unparse(s) for s in statements(ncm.node) if isinstance(s, ast.Return)][-1] == "return p // f_m" and
               "h = n - m" in [ast.unparse(s) for s in statements(ncm.node)] and "p *= n" in [ast.unparse(s) for s in statements(ncm.node)], R, ncm, "binomial", "falling factorial n (n-1) .. (n-m+1) over m!",
               "n_choose_m_given_m_factorial changed")
-    for ref, want in (("combinatorics:construct_permutation_with_copies", ["_construct_permutation_with_copies(idx, q, m*q, [m for i in range(q)])"]),
+    for ref, want in (("combinatorics:construct_permutation_with_copies", ["_construct_permutation_with_copies(idx, q, m*q, [m for _b0 in range(q)])"]),
                       ("combinatorics:construct_permutation_with_varying_copies", None)):
         f = ctx.fn(ref)
         rr = Facts(f).returns()
